@@ -25,12 +25,13 @@ Judge(b, a, t, from, handed) ==
      \cup (IF \E i \in 1..Len(b.reqs) : live(b.reqs[i]) /\ ~(b.reqs[i].tid = t /\ b.reqs[i].to = from) /\ b.reqs[i].tid \notin Tids(a.reqs)
            THEN {"C09_SpoofIsStutter"} ELSE {})
      \cup (IF ~handed /\ \E i \in 1..Len(b.reqs) : live(b.reqs[i]) /\ b.reqs[i].tid = t /\ b.reqs[i].to = from THEN {"C09_GenuineStillAccepted"} ELSE {})
-DoRecv(t, from) == \E k \in Cuts(st, T) :
-   LET m == Recv(st, t, from, T, k)
+DoRecv(t, from, kind) == \E k \in Cuts(st, T) :
+   LET m == Recv(st, t, from, T, k, kind)
        m2 == IF ResetWhenEmptied /\ m.st.reqs = <<>> /\ st.reqs # <<>> /\ Len(st.reqs) >= st.cap THEN [m.st EXCEPT !.next = 0] ELSE m.st
-   IN st' = m2 /\ UNCHANGED hist /\ bad' = bad \cup Judge(st, m2, t, from, m.handed)
+   IN st' = m2 /\ UNCHANGED hist /\ bad' = bad \cup Judge(st, m2, IF Answers(kind) THEN t ELSE -1, from, m.handed /\ kind # "req")
 Tick == st.now < MaxTime /\ st' = Advance(st, 1) /\ UNCHANGED <<hist, bad>>
-Next == (\E to \in Addr : DoSend(to)) \/ (\E t \in -1..MaxSend, from \in Addr \cup {"evil"} : DoRecv(t, from)) \/ Tick
+Next == (\E to \in Addr : DoSend(to)) \/ (\E t \in -1..MaxSend, from \in Addr \cup {"evil"} : DoRecv(t, from, "resp"))
+        \/ (\E t \in 0..MaxSend, from \in Addr, kind \in {"req", "junk"} : DoRecv(t, from, kind)) \/ (\E t \in 0..MaxSend : DoRecv(t, "port0", "resp")) \/ Tick
 Spec == Init /\ [][Next]_vars
 
 \* structure the compaction relies on
